@@ -724,6 +724,10 @@ func unescapeBackTickSpecialStr(l *syntax.Lexer, srcLiteral []rune) []rune {
 			} else {
 				goto UNDONE_end
 			}
+		case syntax.RuneCR, syntax.RuneLF:
+			// a line break is never part of an escape: leave it to the string
+			// scanner, which also records the new line
+			goto UNDONE_end
 		}
 
 		cch := l.Next()
